@@ -943,6 +943,11 @@ def degradeSent (m : MapObj) (ordOut : Nat) (red : String) (w : Option MapObj) :
   | .wide _ => if ordOut < m.covord then .num 0 0 else m.sent
   | k => coreOutSent k m.sent red w
 
+/-- what the value theorems ask of the weight map: it has to be well formed only where `degrade`
+    actually re-houses AND uses it — a `wmean` below the coverage resolution -/
+def WeightsWF (m : MapObj) (ordOut : Nat) (red : String) (w : Option MapObj) : Prop :=
+  ordOut < m.covord → (red == "wmean") = true → ∀ wm, w = some wm → wm.WF
+
 /-- **what a successful `degrade(m, ordOut, red, w)` returns**, `ordOut < spord`, in terms of
     `m` alone (both paths) -/
 structure Degraded (m m' : MapObj) (ordOut : Nat) (red : String) (w : Option MapObj) : Prop where
@@ -951,8 +956,10 @@ structure Degraded (m m' : MapObj) (ordOut : Nat) (red : String) (w : Option Map
   kind : m'.kind = coreOutKind m.kind red w
   sent : m'.sent = degradeSent m ordOut red w
   accepts : coreAccepts m.kind red = true
+  wts : (red == "wmean") = true → ∃ wm b, w = some wm ∧ wm.kind = .plain (.flt b) ∧
+    wm.spord = m.spord ∧ (¬ ordOut < m.covord → wm.covord = m.covord)
   view : m'.view = if ordOut < m.covord then none else m.view
-  abs : ∀ q, q < 12 * 4 ^ ordOut → m'.abs q =
+  abs : WeightsWF m ordOut red w → ∀ q, q < 12 * 4 ^ ordOut → m'.abs q =
     if live m ordOut q
     then coreRed m red w ((childPix m ordOut q).map fun p => (srcAbs m ordOut p, wAt m red w p))
     else m'.vc.sentinel
@@ -1006,8 +1013,11 @@ theorem coreRed_wide {m : MapObj} {n : Nat} (hk : m.kind = .wide n) (red : Strin
 /-- the common tail of both paths -/
 theorem degrade_tail {m M m' : MapObj} {ordOut : Nat} {red : String} {w W : Option MapObj}
     {wv : Option (Array Val)} (hM : Src m M ordOut) (hv : m.BlankInvalid) (hhi : ordOut ≤ m.spord)
-    (hF1 : (∀ n, m.kind ≠ .wide n) → ∀ p, p < m.npix → wAt M red W p = wAt m red w p)
+    (hF1 : WeightsWF m ordOut red w → (∀ n, m.kind ≠ .wide n) → ∀ p, p < m.npix →
+      wAt M red W p = wAt m red w p)
     (hF2 : isF64 W = isF64 w) (hvw : ¬ ordOut < m.covord → M.view = m.view)
+    (hF3 : ∀ W0, W = some W0 → ∃ wm, w = some wm ∧ wm.kind = W0.kind ∧ wm.spord = W0.spord ∧
+      (¬ ordOut < m.covord → wm.covord = W0.covord))
     (hcw : coreWeights M red W = .ok wv) (hcr : coreRest M ordOut red W wv = .ok m') :
     Degraded m m' ordOut red w := by
   have hMv := src_blankInvalid hM hv
@@ -1015,7 +1025,7 @@ theorem degrade_tail {m M m' : MapObj} {ordOut : Nat} {red : String} {w W : Opti
   obtain ⟨c1, c2, c3, c4, c5, c6, _, c8, c9⟩ :=
     coreRest_ok hM.wf hM.lo hhi' (coreWeights_ok hM.wf hMv hcw).2 hcr
   have hnp : (cfgOf M.covord ordOut).npix = 12 * 4 ^ ordOut := cfgOf_npix hM.lo
-  refine ⟨c1.trans hM.covord, c2, ?_, ?_, by rw [← hM.kind]; exact c6, ?_, ?_, ?_⟩
+  refine ⟨c1.trans hM.covord, c2, ?_, ?_, by rw [← hM.kind]; exact c6, ?_, ?_, ?_, ?_⟩
   · rw [c4, hM.kind]; exact coreOutKind_congr _ _ hF2
   · rw [c5, hM.kind]
     unfold degradeSent
@@ -1030,11 +1040,17 @@ theorem degrade_tail {m M m' : MapObj} {ordOut : Nat} {red : String} {w W : Opti
     | packed =>
       show coreOutSent _ _ _ _ = coreOutSent _ _ _ _
       rw [hM.sent (fun n hn => by rw [hk] at hn; cases hn)]; exact coreOutSent_congr _ _ _ hF2
+  · intro hr
+    obtain ⟨W0, b, _, _, e0, hk, ho1, ho2, _⟩ := (coreWeights_ok hM.wf hMv hcw).1 hr
+    obtain ⟨wm, e1, g1, g2, g3⟩ := hF3 W0 e0
+    refine ⟨wm, b, e1, g1.trans hk, g2.trans (ho1.trans hM.spord), fun hnb => ?_⟩
+    rw [g3 hnb, ho2, hM.covord]
+    omega
   · rw [c3]
     by_cases hb : ordOut < m.covord
     · rw [if_pos hb]; exact hM.view hb
     · rw [if_neg hb]; exact hvw hb
-  · intro q hq
+  · intro hww q hq
     have hq' : q < (cfgOf M.covord ordOut).npix := by rw [hnp]; exact hq
     rw [c8 q hq', hM.live q hq', childPix_spord hM.spord]
     cases hl : live m ordOut q with
@@ -1057,7 +1073,7 @@ theorem degrade_tail {m M m' : MapObj} {ordOut : Nat} {red : String} {w W : Opti
         congr 1
         apply List.map_congr_left
         intro p hp
-        rw [hM.abs p (hch p hp), hF1 hnw p (hch p hp)]
+        rw [hM.abs p (hch p hp), hF1 hww hnw p (hch p hp)]
   · intro k hk
     have hk' : k < M.c.ncov := by
       show k < 12 * 4 ^ M.covord
@@ -1086,7 +1102,6 @@ theorem isF64_rehouse {wm W : MapObj} {co : Nat} (h : rehouse wm co = .ok W) :
     re-housed and used (`wmean` below the coverage resolution). -/
 theorem apiDegrade_ok {m m' : MapObj} {ordOut : Nat} {red : String} {w : Option MapObj}
     (hwf : m.WF) (hv : m.BlankInvalid)
-    (hww : ordOut < m.covord → (red == "wmean") = true → ∀ wm, w = some wm → wm.WF)
     (hlt : ordOut < m.spord) (h : apiDegrade m ordOut red w = .ok m') :
     Degraded m m' ordOut red w := by
   rw [apiDegrade_eq] at h
@@ -1113,8 +1128,8 @@ theorem apiDegrade_ok {m m' : MapObj} {ordOut : Nat} {red : String} {w : Option 
         | ok wv =>
           rw [hcw] at hcore
           have hcr : coreRest M ordOut red W wv = .ok m' := hcore
-          refine degrade_tail hM hv (by omega) ?_ ?_ (fun hnb => absurd hb hnb) hcw hcr
-          · intro hnw p hp
+          refine degrade_tail hM hv (by omega) ?_ ?_ (fun hnb => absurd hb hnb) ?_ hcw hcr
+          · intro hww hnw p hp
             cases hwm : (red == "wmean") with
             | false => rw [wAt_not_wmean hwm, wAt_not_wmean hwm]
             | true =>
@@ -1144,6 +1159,19 @@ theorem apiDegrade_ok {m m' : MapObj} {ordOut : Nat} {red : String} {w : Option 
                 rw [hrw] at hW
                 cases hW
                 exact isF64_rehouse hrw
+          · intro W0 hW0
+            cases w with
+            | none => cases hW; cases hW0
+            | some wm =>
+              simp only at hW
+              cases hrw : rehouse wm ordOut with
+              | error e => rw [hrw] at hW; cases hW
+              | ok W1 =>
+                rw [hrw] at hW
+                cases hW
+                cases hW0
+                obtain ⟨_, _, g2, g3, _⟩ := WFRes.rehouse_okp wm ordOut W0 hrw
+                exact ⟨wm, rfl, g3.symm, g2.symm, fun hnb => absurd hb hnb⟩
       simp only [bind, Except.bind] at h
       split at h
       · cases h
@@ -1156,8 +1184,8 @@ theorem apiDegrade_ok {m m' : MapObj} {ordOut : Nat} {red : String} {w : Option 
     | error e => rw [hcw] at h; cases h
     | ok wv =>
       rw [hcw] at h
-      exact degrade_tail (src_self hwf hv (by omega) (by omega)) hv (by omega) (fun _ _ _ => rfl) rfl
-        (fun _ => rfl) hcw h
+      exact degrade_tail (src_self hwf hv (by omega) (by omega)) hv (by omega) (fun _ _ _ _ => rfl) rfl
+        (fun _ => rfl) (fun W0 hW0 => ⟨W0, hW0, rfl, rfl, fun _ => rfl⟩) hcw h
 
 /-! ### Part 5: the reductions in terms of the VALID children -/
 
@@ -1462,6 +1490,112 @@ theorem apiDegrade_inrange_isOk_iff {m : MapObj} {ordOut : Nat} {red : String} {
     · rintro ⟨h1, h2⟩
       obtain ⟨wv, hwv⟩ := (coreWeights_isOk_iff hwf hv).2 h1
       exact ⟨wv, hwv, (coreRest_isOk_iff _ _ _ _ _).2 h2⟩
+
+theorem apiDegrade_pre {m m' : MapObj} {ordOut : Nat} {red : String} {w : Option MapObj}
+    (h : apiDegrade m ordOut red w = .ok m') : ordOut ≤ m.spord ∧ m.kind ≠ .packed := by
+  rw [apiDegrade_eq] at h
+  unfold degradeSpec at h
+  split at h
+  · cases h
+  split at h
+  · cases h
+  rename_i h1 h2
+  exact ⟨by omega, by simpa using h2⟩
+
+/-- `degrade` at the map's own resolution is a copy: nothing is validated -/
+theorem apiDegrade_same {m : MapObj} (red : String) (w : Option MapObj) (hle : m.covord ≤ m.spord)
+    (hk : m.kind ≠ .packed) :
+    apiDegrade m m.spord red w = .ok { m with cache := none } := by
+  rw [apiDegrade_eq]
+  unfold degradeSpec
+  rw [if_neg (by omega), if_neg (by simpa using hk), if_neg (by omega), if_pos (by simp)]
+
+/-! ### Part 8: small facts for the property theorems -/
+
+theorem fits_zero (dt : DT) : (Val.num 0 0).fits dt = true := by
+  cases dt with
+  | flt b =>
+    show decide (fitsFloat.strip 1100 0 < 2 ^ (if b == 32 then 24 else 53)) = true
+    rw [decide_eq_true_iff]
+    exact Nat.two_pow_pos _
+  | int b sg => rfl
+  | bool => rfl
+
+theorem fits_one (dt : DT) : (Val.num 1 0).fits dt = true := by
+  cases dt with
+  | flt b =>
+    show decide (fitsFloat.strip 1100 1 < 2 ^ (if b == 32 then 24 else 53)) = true
+    rw [decide_eq_true_iff]
+    show 1 < _
+    split <;> decide
+  | int b sg => rfl
+  | bool => rfl
+
+theorem fltOut_none (dt : DT) : fltOut dt none = dt.defaultSentinel := rfl
+
+theorem fltOut_zero (dt : DT) : fltOut dt (some (.num 0 0)) = .num 0 0 := by
+  show (if (Val.num 0 0).fits dt = true then Val.num 0 0 else Val.poison) = _
+  rw [if_pos (fits_zero dt)]
+
+theorem fltOut_one (dt : DT) : fltOut dt (some (.num 1 0)) = .num 1 0 := by
+  show (if (Val.num 1 0).fits dt = true then Val.num 1 0 else Val.poison) = _
+  rw [if_pos (fits_one dt)]
+
+theorem validChildren_eq_nil_iff {m : MapObj} {ordOut q : Nat} :
+    validChildren m ordOut q = [] ↔
+      (childPix m ordOut q).any (fun p => m.vc.valid (m.abs p)) = false := by
+  unfold validChildren
+  rw [List.filter_eq_nil_iff, List.any_eq_false]
+
+/-- a coarse pixel with a valid child is live -/
+theorem live_of_validChildren {m : MapObj} {ordOut q : Nat} (h : validChildren m ordOut q ≠ []) :
+    live m ordOut q = true := by
+  unfold live
+  cases ha : (childPix m ordOut q).any (fun p => m.vc.valid (m.abs p)) with
+  | true => rfl
+  | false => exact absurd (validChildren_eq_nil_iff.2 ha) h
+
+/-- without valid children, a coarse pixel is live exactly when (at or above the coverage
+    resolution) it lies in a covered coverage pixel -/
+theorem live_of_no_validChildren {m : MapObj} {ordOut q : Nat} (h : validChildren m ordOut q = []) :
+    live m ordOut q =
+      (decide (m.covord ≤ ordOut) && covered m.c m.st (q >>> (2 * (ordOut - m.covord)))) := by
+  unfold live
+  rw [validChildren_eq_nil_iff.1 h, Bool.false_or]
+
+theorem wAt_wmean_valid {m wm : MapObj} {p : Nat} (h : m.vc.valid (m.abs p) = true) :
+    wAt m "wmean" (some wm) p = wm.abs p := by
+  unfold wAt
+  simp [h]
+
+theorem wAt_invalid {m : MapObj} {red : String} {w : Option MapObj} {p : Nat}
+    (h : m.vc.valid (m.abs p) = false) : wAt m red w p = .num 0 0 := by
+  unfold wAt
+  cases w with
+  | none => rfl
+  | some wm => simp [h]
+
+/-- the weights of the valid children, read from the weight map's dense view -/
+theorem ws_wmean (m wm : MapObj) (ordOut q : Nat) :
+    ((validChildren m ordOut q).map fun p => (wAt m "wmean" (some wm) p).numD) =
+      (validChildren m ordOut q).map fun p => (wm.abs p).numD := by
+  apply List.map_congr_left
+  intro p hp
+  unfold validChildren at hp
+  rw [wAt_wmean_valid (List.mem_filter.1 hp).2]
+  -- `List.mem_filter` gives `valid … = true`
+
+/-- total weight: the invalid children carry weight 0, so the sum over ALL the children is the
+    sum over the valid ones -/
+theorem wden_wmean (m wm : MapObj) (ordOut q : Nat) :
+    dySum ((childPix m ordOut q).map fun p => (wAt m "wmean" (some wm) p).numD) =
+      dySum ((validChildren m ordOut q).map fun p => (wm.abs p).numD) := by
+  rw [← ws_wmean]
+  unfold validChildren
+  apply dySum_filter
+  intro p _ hp
+  rw [wAt_invalid hp]
+  rfl
 
 end ApiDegrade
 end HS
